@@ -1017,10 +1017,12 @@ def c_block(b):
         elif k == "choices":
             cs = []
             for c in s[1]:
+                # `* text -> target`: the blank before the arrow belongs to the text
+                inner = c["inner"] + ([["t", " "]] if c["divert"] and not c["fallback"] and not c["tags"] else [])
                 cs.append("mkChoice %d%%nat %s %s %s %s %s %s %s %s %s %s %s" % (
                     c["id"], "true" if c["sticky"] else "false", c_opt(c["label"], tq),
                     c_list([c_expr(e) for e in c["conds"]]), c_inl(c["start"]),
-                    "true" if c["only"] is not None else "false", c_inl(c["only"] or []), c_inl(c["inner"]),
+                    "true" if c["only"] is not None else "false", c_inl(c["only"] or []), c_inl(inner),
                     c_list([tq(g) for g in c["tags"]]), c_opt(c["divert"], c_target),
                     "true" if c["fallback"] else "false", c_block(c["body"])))
             out.append("SChoices " + c_list(cs))
